@@ -32,7 +32,8 @@ ASSUMPTIONS = [
 
 FEATURES = ['sibling_prefix', 'outside_tree', 'link_in_out_file', 'link_in_out_dir', 'link_in_in',
             'link_out_in_dir', 'chain', 'dangling', 'ext_only_link', 'dir_beside_tex', 'latex_ext',
-            'nested_include', 'link_to_base', 'deep_base', 'abs_links', 'dir_tex_link', 'base_dot_tex']
+            'nested_include', 'link_to_base', 'deep_base', 'abs_links', 'dir_tex_link', 'base_dot_tex',
+            'case_sibling', 'dot_links', 'out_link_to_nest']
 PERSISTENT_FEATURES = ['loop', 'unreadable_file', 'unsearchable_dir', 'non_utf8', 'long_name', 'long_chain']
 
 
@@ -79,7 +80,7 @@ def gen_layout(rng, batch):
         if batch == 'persistent' and not feats & set(PERSISTENT_FEATURES):
             feats.add(rng.choice(PERSISTENT_FEATURES))
     b = LayoutBuilder(rng)
-    basename = rng.choice(['base', 'base', 'doc', 'in'])
+    basename = rng.choice(['base', 'base', 'doc', 'in', 'Base', 'Proj'])
     parent = W + ('/p' if 'deep_base' in feats else '')
     base = parent + '/' + basename
     b.d(W)
@@ -117,10 +118,29 @@ def gen_layout(rng, batch):
             b.d(sd)
             outs.append(b.f(sd + '/secret.tex') and sd + '/secret.tex')
 
+    if 'case_sibling' in feats:
+        # siblings whose names differ from the directory's only in letter case
+        variants = [v for v in (basename.lower(), basename.upper(), basename.capitalize(), basename.swapcase())
+                    if v != basename]
+        for v in sorted(set(variants))[:rng.randint(1, 2)]:
+            sd = parent + '/' + v
+            b.d(sd)
+            sibs.append(sd)
+            outs.append(b.f(sd + '/secret.tex') and sd + '/secret.tex')
+            outs.append(b.f(sd + '/a.tex') and sd + '/a.tex')
+
     def tgt(src_dir, dst):
         if 'abs_links' in feats and rng.random() < 0.5:
             return dst
         return relpath_to(src_dir, dst)
+
+    if 'dot_links' in feats:
+        # directory links that do not lead anywhere else by themselves
+        b.l(base + '/here', '.')
+        b.l(base + '/up', '..')
+        b.l(base + '/sub/top', '..')
+        if rng.random() < 0.5:
+            outs.append(b.f(parent + '/secret.tex') and parent + '/secret.tex')
 
     if 'link_in_out_file' in feats:
         b.l(base + '/lnkf', tgt(base, rng.choice(outs)))
@@ -171,8 +191,19 @@ def gen_layout(rng, batch):
         outs.append(b.f(out + '/o.latex') and out + '/o.latex')
     if 'nested_include' in feats:
         inner = rng.choice(['../out/secret', 'lnk', 'sub/a', 'lnkf', '../' + basename + '2/secret',
-                            out + '/secret.tex', 'b', 'lnkd/secret'])
+                            out + '/secret.tex', 'b', 'lnkd/secret', 'onlyout', 'secret', 'here/../secret',
+                            '../' + basename.swapcase() + '/secret'])
         b.f(base + '/nest.tex', extra=' \\input{%s} tail' % inner)
+        if 'out_link_to_nest' in feats:
+            # the including file is also reachable under a name that lies outside, next to
+            # files that exist only there
+            b.l(out + '/backf.tex', tgt(out, base + '/nest.tex'))
+            outs.append(b.f(out + '/onlyout.tex') and out + '/onlyout.tex')
+            if 'link_in_out_dir' not in feats:
+                b.l(base + '/lnkd', tgt(base, out))
+            b.d(base + '/sub/inc')
+            b.f(base + '/sub/inc/n2.tex', extra=' \\input{%s} tail' % rng.choice(['onlyout', 'secret', 'a']))
+            b.l(out + '/back2.tex', tgt(out, base + '/sub/inc/n2.tex'))
     if 'link_to_base' in feats:
         b.l(parent + '/lbase', basename)
         b.l('/sim/lb', tgt('/sim', base))
@@ -267,8 +298,12 @@ def gen_name(rng, fs, res, basenode, layout):
             cur = node
         name = '/'.join(parts)
     if rng.random() < 0.06:
+        bn = layout['base'].rsplit('/', 1)[1]
         name = rng.choice(['', '.', './', 'sub/..', 'sub', 'sub/', 'chap', 'chap/', './chap', 'chap/../chap', 'x',
-                           'sub/../.', '..', '../' + layout['base'].rsplit('/', 1)[1]])
+                           'sub/../.', '..', '../' + bn, 'here/../secret', 'here/../secret.tex', 'up/secret',
+                           'sub/top/../secret', 'lnkd/backf', 'lnkd/back2', '../out/backf', 'lnkd/../secret',
+                           'li/../../secret', '../' + bn.swapcase() + '/secret', '../' + bn.lower() + '/secret',
+                           '../' + bn.upper() + '/a.tex', 'lnkd/../' + bn.upper() + '/secret'])
         return name
     # mutations
     x = rng.random()
@@ -351,7 +386,9 @@ def generate(rng, tier, run):
             if batch == 'transient' and rng.random() < 0.7:
                 ops.append(['fault', rng.randint(1, 14), rng.randrange(4)])
             name = gen_name(rng, fs, res, basenode if basenode is not None else fs.root, layout)
-            via = 'rif' if rng.random() < 0.7 else rng.choice(['input', 'include'])
+            via = 'rif' if rng.random() < 0.65 else rng.choice(['input', 'include'])
+            if ('nest' in name or 'back' in name or 'n2' in name) and rng.random() < 0.7:
+                via = rng.choice(['input', 'include'])
             ops.append(['read', name, via])
     return {'batch': batch, 'layout': layout, 'ops': ops}
 
